@@ -36,6 +36,14 @@ def comp_shards(focus, seed, scenario, per_shard, budget_s, shards=CORES, extra=
     return out
 
 
+def typed_extra(focus, seed, scenario, per_shard, budget_s):
+    """One additional shard of a directed scenario on the typed build (its own index range, so that it does not repeat the plain shard's cases)."""
+    argv, timeout = conc_shards(focus, seed, scenario, per_shard, budget_s, shards=1)[0]
+    argv = ["typed/conc"] + argv[1:]
+    argv[argv.index("--from") + 1] = "500000"
+    return [(argv, timeout)]
+
+
 SEQ_RULE = ("S-mode: seeded generator draws a cache configuration and a history of 25-60 awaited operations "
             "(4 put variants, 2^4 upsert shapes, delete, 7 read variants, clock jumps incl. to 1 ns before/after a deadline, "
             "full sweep cycles, deletes with the worker held) over 3-8 keys; after every step the real cache is compared with a "
@@ -62,7 +70,7 @@ ADDENDA = {
     "C02": "Iterators are also interrupted (an acknowledged write or a clock movement between two items: every next() is a read of its own), consumed through nth(), and run over 65-200 positions with repeats.",
     "C03": "A quarter of the histories may put a key that is past its time-to-live and not yet swept (refused today: the recorded C07 finding, which ends the history; if it is admitted the old charge must not linger and cost a live key its place). A sixth of the histories use weights around 2^34; every second cache is configured through the public Config fields after build().",
     "C04": "Typed flavour: at the quiescent point after an accepted delete the number of live value instances (created + cloned - dropped, counted by the value type itself) must come down to the number of stored entries - a deleted value the cache still owns while every thread is idle has not been released. 'release' also issues two deletes behind a held worker (no acknowledgement may claim 'accepted' or 'does not exist' while the key is still stored and charged); 'fanout' deletes thousands of keys while the sweeper evicts them.",
-    "C05": "'fanout': thousands of distinct keys put at the same moment (ids pairwise distinct, each charged, total = sum); 'held-client' pipelines weight updates behind a held worker.",
+    "C05": "The directed sweeper-vs-worker races (update-sweep, sweep-other-key, sweep-reput) run once more on the typed build: the key's Hash and Clone and the value's Drop then run inside the windows between the index, the store and the weight steps. 'fanout': thousands of distinct keys put at the same moment (ids pairwise distinct, each charged, total = sum); 'held-client' pipelines weight updates behind a held worker.",
     "C06": "Capacity hints 1-16 with more victims than the hint; one decision in 150 among 1500 residents; evicting must not stop while victims remain; 'estimate' (readers + a storm of never-read keys) must not evict a resident with recorded hits; a refused put stores nothing.",
     "C07": "'fanout' (every absent-reading key can be put again after full sweep cycles), 'held-ref', 'release', the expired-key sweep race followed to the point where the extended TTL has passed, and racing puts that each weigh the whole cache.",
     "C08": "Every second pipelined burst of 'held-client' is sized so that the command queue is exactly full when its last weight upsert is sent (from a helper thread, blocked in its send until the held worker resumes): the charged weight must still be that last one's. The custom weight function charges its own TTL surcharge; builder setters are called in varying order; the clock may move inside a TTL upsert.",
@@ -148,7 +156,7 @@ def _c01(seed, quick):
     n, b = (140, 40) if quick else (2000, 400)
     m, mb = (25, 40) if quick else (500, 400)
     return {
-        "shards": seq_shards("C01", seed, n, b, shards=6) + comp_shards("C01", seed, "c06", 2000 if quick else 40000, b, shards=1) + conc_shards("C01", seed, "mixed", m, mb, shards=7) + conc_shards("C01", seed, "update-sweep", 120 if quick else 3000, mb, shards=1) + conc_shards("C01", seed, "sweep-other-key", 144 if quick else 3000, mb, shards=1),
+        "shards": seq_shards("C01", seed, n, b, shards=6) + comp_shards("C01", seed, "c06", 2000 if quick else 40000, b, shards=1) + conc_shards("C01", seed, "mixed", m, mb, shards=7) + conc_shards("C01", seed, "update-sweep", 120 if quick else 3000, mb, shards=1) + conc_shards("C01", seed, "sweep-other-key", 144 if quick else 3000, mb, shards=1) + typed_extra("C01", seed, "sweep-other-key", 72 if quick else 3000, mb) + typed_extra("C01", seed, "update-sweep", 60 if quick else 3000, mb),
         "rule": SEQ_RULE + " " + CONC_RULE,
         "explanation": "Online invariant: every change of the total weight emits WeightChanged{site,new_total,max} under the total's own write lock "
                        "(add / update / delete); the recorder asserts 0 <= new_total <= max at that instant. Two observer threads spin on the public "
@@ -184,7 +192,8 @@ def _c05(seed, quick):
     m, mb = (25, 40) if quick else (500, 400)
     n, b = (100, 40) if quick else (2000, 400)
     return {
-        "shards": conc_shards("C05", seed, "same-key", 24 if quick else 400, mb, shards=3) + conc_shards("C05", seed, "update-sweep", 120 if quick else 3000, mb, shards=1) + conc_shards("C05", seed, "sweep-other-key", 144 if quick else 3000, mb, shards=1) + conc_shards("C05", seed, "sweep-reput", 60 if quick else 3000, mb, shards=1) + conc_shards("C05", seed, "mixed", m, mb, shards=4) + conc_shards("C05", seed, "fanout", 30 if quick else 3000, mb, shards=1) + conc_shards("C05", seed, "held-client", 300 if quick else 20000, mb, shards=1) + seq_shards("C05", seed, n, b, shards=4),
+        "shards": conc_shards("C05", seed, "same-key", 24 if quick else 400, mb, shards=3) + conc_shards("C05", seed, "update-sweep", 120 if quick else 3000, mb, shards=1) + conc_shards("C05", seed, "sweep-other-key", 144 if quick else 3000, mb, shards=1) + conc_shards("C05", seed, "sweep-reput", 60 if quick else 3000, mb, shards=1) + conc_shards("C05", seed, "mixed", m, mb, shards=4) + conc_shards("C05", seed, "fanout", 30 if quick else 3000, mb, shards=1) + conc_shards("C05", seed, "held-client", 300 if quick else 20000, mb, shards=1) + seq_shards("C05", seed, n, b, shards=4)
+                  + typed_extra("C05", seed, "update-sweep", 60 if quick else 3000, mb) + typed_extra("C05", seed, "sweep-other-key", 72 if quick else 3000, mb) + typed_extra("C05", seed, "sweep-reput", 30 if quick else 3000, mb),
         "rule": CONC_RULE + " " + SEQ_RULE,
         "explanation": "At quiescent points (every command acknowledged, two sweeps completed since the clock stopped) the snapshot must satisfy: total = sum of "
                        "charged weights, charged ids = ids of held entries, and after deleting every key total_weight_used() = 0. Directed races: two puts of one "
@@ -363,7 +372,8 @@ def _c09_extra(seed, quick):
 
 def _c10_extra(seed, quick):
     return (conc_shards("C10", seed, "sweep-reput", 60 if quick else 3000, 40 if quick else 400, shards=1) + conc_shards("C10", seed, "update-sweep", 120 if quick else 3000, 40 if quick else 400, shards=1)
-            + conc_shards("C10", seed, "sweep-other-key", 144 if quick else 3000, 40 if quick else 400, shards=2) + conc_shards("C10", seed, "fanout", 30 if quick else 3000, 40 if quick else 400, shards=1) + conc_shards("C10", seed, "slow-tick", 1 if quick else 12, 60 if quick else 400, shards=2) + conc_shards("C10", seed, "held-ref", 40 if quick else 3000, 40 if quick else 400, shards=1))
+            + conc_shards("C10", seed, "sweep-other-key", 144 if quick else 3000, 40 if quick else 400, shards=2) + conc_shards("C10", seed, "fanout", 30 if quick else 3000, 40 if quick else 400, shards=1) + conc_shards("C10", seed, "slow-tick", 1 if quick else 12, 60 if quick else 400, shards=2) + conc_shards("C10", seed, "held-ref", 40 if quick else 3000, 40 if quick else 400, shards=1)
+            + typed_extra("C10", seed, "update-sweep", 60 if quick else 3000, 40 if quick else 400) + typed_extra("C10", seed, "sweep-reput", 30 if quick else 3000, 40 if quick else 400))
 
 
 def _c16_extra(seed, quick):
